@@ -3,15 +3,17 @@ import Apko.Generated.OciCreated
 
 Three places decide (statement lists regenerated into `Apko.Generated.OciCreated`):
 
-* `build.New` folds an exported, non-blank `SOURCE_DATE_EPOCH` into `Options.SourceDateEpoch` (the value the
-  `--build-date` flag / `WithSourceDateEpoch` option left there; default 0) and fails on a malformed one;
+* `build.New` and `build.NewOptions` (both through `applySourceDateEpoch`, after the options) fold an exported,
+  non-blank `SOURCE_DATE_EPOCH` into `Options.SourceDateEpoch` (the value the `--build-date` flag /
+  `WithSourceDateEpoch` option left there; default 0) and fail on a malformed one;
 * `Context.GetBuildDateEpoch`: when `SOURCE_DATE_EPOCH` is exported (`os.LookupEnv` says ok) the option value as it
   is; otherwise the loop `if p.BuildTime.After(bde) { bde = p.BuildTime }` over the installed packages, starting
   from the option value.  The result is handed to `oci.BuildImageFromLayers` as `created` (config `created`, every
   history entry, the `org.opencontainers.image.created` annotation and label);
-* `buildImageComponents`: `multiArchBDE` starts from `Options.SourceDateEpoch` of `build.NewOptions` (the options
-  alone: `NewOptions` does NOT look at the environment), is raised to every per-architecture result, and is handed
-  to `oci.GenerateIndex` (created annotation of the index).
+* `buildImageComponents`: `multiArchBDE` starts from `Options.SourceDateEpoch` of `build.NewOptions`, is raised to
+  every per-architecture result, and is handed to `oci.GenerateIndex` (created annotation of the index).  On the
+  pinned tree `NewOptions` did not look at the environment (`Pinned.indexCreated`, F12f): with a `--build-date`
+  later than the declared SOURCE_DATE_EPOCH the index carried the build date.
 
 Times are whole seconds (`Int`, Unix). -/
 namespace Apko.OciCreated
@@ -60,6 +62,12 @@ def Impl.imageCreated (env : Env) (opt : Int) (pkgs : List Int) : Option Int :=
 /-- the creation time of the index: `multiArchBDE := o.SourceDateEpoch`, then `if bde.After(multiArchBDE)
 { multiArchBDE = bde }` for every architecture (in any order: the fold is a maximum) -/
 def Impl.indexCreated (env : Env) (opt : Int) (archPkgs : List (List Int)) : Option Int :=
+  match Impl.newEpoch env opt with
+  | none => none
+  | some sde => some (Impl.foldPkgs sde (archPkgs.map (Impl.getBuildDateEpoch env.exported sde)))
+
+/-- the same before the repair F12f: `NewOptions` left the environment out, the fold started from the bare option -/
+def Pinned.indexCreated (env : Env) (opt : Int) (archPkgs : List (List Int)) : Option Int :=
   match Impl.newEpoch env opt with
   | none => none
   | some sde => some (Impl.foldPkgs opt (archPkgs.map (Impl.getBuildDateEpoch env.exported sde)))
